@@ -22,6 +22,7 @@ import LogosModel.Subst
 import LogosModel.Calls
 import LogosModel.IgnoreGroup
 import LogosModel.Assemble
+import LogosModel.LogosItems
 import LogosModel.Look.Utf8ClosedC
 import Std.Data.HashMap
 import LogosModel.Source
@@ -546,6 +547,79 @@ def attrAnswer (flag : String) (toks : List String) : String :=
   let errs := ",".intercalate (d.errors.map attrErrStr)
   s!"prio={d.priority.isSome} cb={d.callback.isSome} ag={d.allowGreedy.isSome} ign={d.ignoreGroups.length} errs={errs}"
 
+/-! ## C18: the items of `#[logos(...)]` (LogosItems.lean) -/
+
+/-- the oracle the line protocol uses: literal payloads 1000-1999 are string literals, 2000-2999 byte strings, anything
+else another literal; a type is a non-empty token list without literals and without `+`; `'a` is a joint `'` and an identifier -/
+def itemsOrc (groups : List (Nat × List Attr.Tok)) : LogosItems.Orc :=
+  let isTy := fun (ts : List Attr.Tok) => !ts.isEmpty && ts.all fun t => match t with
+    | .lit _ => false
+    | .punct c _ => c != '+'
+    | _ => true
+  let lts : List Attr.Tok → List String := fun ts =>
+    (ts.zip (ts.drop 1)).filterMap fun (a, b) => match a, b with
+      | .punct '\'' _, .ident n => some n
+      | _, _ => none
+  { groupToks := fun g => (groups.find? (·.1 == g)).map (·.2) |>.getD []
+    parseLit := fun ts => match ts with
+      | [.lit n] => if 1000 ≤ n && n < 2000 then some 0 else if 2000 ≤ n && n < 3000 then some 1 else some 2
+      | _ => none
+    parseBool := fun ts => match ts with
+      | [.ident "true"] => some true
+      | [.ident "false"] => some false
+      | _ => none
+    isType := isTy
+    parseLt := fun ts => match ts with
+      | [.ident "none"] => some none
+      | [.punct '\'' _, .ident a] => some (some a)
+      | _ => none
+    parseTy := fun ts => if isTy ts then some (lts ts) else none }
+
+def lerrStr : LogosItems.LErr → String
+  | .invalidNested => "invalid"
+  | .form n => "form-" ++ n
+  | .dup n => "dup-" ++ n
+  | .unknown _ => "unknown"
+  | .deprecatedSource => "source"
+  | .badValue n => "bad-" ++ n
+  | .skipGroup => "skipgroup"
+  | .arg e => "arg-" ++ attrErrStr e
+  | .errUnexpected => "e-unexpected"
+  | .errPositional => "e-positional"
+  | .errBadCallback => "e-badcb"
+  | .errDupCallback => "e-dupcb"
+  | .errCallbackForm => "e-cbform"
+  | .errUnknownArg _ => "e-unknown"
+  | .closureSyntax => "closure-syntax"
+  | .closureBody => "closure-body"
+
+def splitOnBar (l : List String) : List (List String) :=
+  l.foldr (fun x acc => if x == "|" then [] :: acc else match acc with
+    | h :: t => (x :: h) :: t
+    | [] => [[x]]) [[]]
+
+/-- "LOGOSITEMS <lifetime params|-> <type params|-> <tokens> {| <group id> <tokens>}" -/
+def logosItemsAnswer (args : List String) : String :=
+  match args with
+  | lts :: tys :: rest =>
+    let names := fun (s : String) => if s == "-" then [] else s.splitOn ","
+    match splitOnBar rest with
+    | top :: groups =>
+      let tk := fun (l : List String) => l.filterMap attrTok
+      let gs := groups.filterMap fun g => match g with
+        | id :: toks => some (id.toNat!, tk toks)
+        | [] => none
+      let o := itemsOrc gs
+      let s := LogosItems.run o (LogosItems.init (names lts) (names tys)) (Attr.allNested true (tk top))
+      let b := fun (x : Bool) => if x then "1" else "0"
+      let skipE := s.skips.flatMap fun d => d.defn.errors.map fun e => "arg-" ++ attrErrStr e
+      let errs := ((s.errors.map lerrStr) ++ skipE).mergeSort (fun a b => a ≤ b)
+      let err := match s.errorTy with | none => "-" | some e => if e.callback then "cb" else "ty"
+      let u8 := match s.utf8 with | none => "-" | some v => b v
+      s!"acc={b (LogosItems.accepted s)} ret={b s.returned} errs={",".intercalate errs} crate={b s.crate.isSome} error={err} export={b s.exportDir.isSome} extras={b s.extras.isSome} utf8={u8} skips={s.skips.length} subs={",".intercalate (s.subs.map (·.1))} tyerrs={s.ty.errs}"
+    | [] => "BADQ"
+  | _ => "BADQ"
+
 /-! ## C15 / C05: library-level models -/
 
 def bumpAnswer (mode hexsrc st en n : String) : String :=
@@ -760,6 +834,9 @@ partial def run (h : IO.FS.Stream) (out : IO.FS.Stream) (cur : Case) (tbl : Std.
     run h out cur tbl
   | "Q" :: "IGNOREGRP" :: toks =>
     out.putStrLn s!"{cur.name} IGNOREGRP {" ".intercalate toks} : {ignoreGrpAnswer toks}"
+    run h out cur tbl
+  | "Q" :: "LOGOSITEMS" :: args =>
+    out.putStrLn s!"{cur.name} LOGOSITEMS {" ".intercalate args} : {logosItemsAnswer args}"
     run h out cur tbl
   | "Q" :: "ATTR" :: flag :: toks =>
     out.putStrLn s!"{cur.name} ATTR {flag} {" ".intercalate toks} : {attrAnswer flag toks}"
